@@ -45,6 +45,17 @@ Record case := Case {
 (* a run of [n] equal bytes (case files compress long runs) *)
 Definition rep (n x : N) : bytes := N.iter n (cons x) [].
 
+(* [d] with byte [i] replaced by [v]; the first [n] bytes of [d] (case files name a byte string by
+   its difference from an earlier one) *)
+Fixpoint setb_nat (d : bytes) (i : nat) (v : N) : bytes :=
+  match d, i with
+  | [], _ => []
+  | _ :: r, O => v :: r
+  | x :: r, S k => x :: setb_nat r k v
+  end.
+Definition setb (d : bytes) (i v : N) : bytes := setb_nat d (N.to_nat i) v.
+Definition pre (d : bytes) (n : N) : bytes := firstn (N.to_nat n) d.
+
 Definition dec_find (tab : list (N * bytes * option N)) (cur : N) (d : bytes) :=
   find (fun e => N.eqb (fst (fst e)) cur && bytes_eqb (snd (fst e)) d) tab.
 
